@@ -582,6 +582,8 @@ where
         output.on_conn_error(error);
         input.on_conn_error(error);
         listener.on_conn_error(error);
+        // tasks blocked in open_bi/open_uni on the stream-count limit must observe the error
+        self.stream_ids.local.wake_all();
     }
 }
 
